@@ -43,6 +43,14 @@ func init() {
 	badPairs[[2]string{"|", "|"}] = true
 	badPairs[[2]string{"/", "*"}] = true
 	badPairs[[2]string{"number", "%"}] = true
+	for _, a := range []string{"#", "-", "@", "number"} {
+		badPairs[[2]string{a, "-->"}] = true
+	}
+	badPairs[[2]string{"#", "-"}] = true
+	badPairs[[2]string{"-", "-"}] = true
+	badPairs[[2]string{"/", "*="}] = true
+	badPairs[[2]string{"|", "|="}] = true
+	badPairs[[2]string{"|", "||"}] = true
 }
 
 func Serialize(l []Token) string {
